@@ -193,12 +193,32 @@ def call_method(spec, fn, case):
     cls = spec['cls']
     pycls = fn.__globals__[cls['name']]
     obj = pycls.__new__(pycls)
-    for a, tt in cls['state'].items():
-        setattr(obj, a, to_py(py2lean.parse_type(tt), case['self'][a]))
-    pos = [to_py(py2lean.parse_type(tt), case[py2lean.mangle(p)]) for p, tt in spec['params'].items()]
-    kw = {}
+    if cls.get('dict_base'):
+        # a dict subclass whose `.<peer>` is the same class seen from the other side (OneToOne): the object IS
+        # the dict of the `dict_base` field, the peer IS the dict of the other field, and they point at each other
+        peer = pycls.__new__(pycls)
+        base, pa = cls['dict_base'], cls['peer']['attr']
+        other = cls['peer']['swap'][base]
+        dict.update(obj, to_py(py2lean.parse_type(cls['state'][base]), case['self'][base]))
+        dict.update(peer, to_py(py2lean.parse_type(cls['state'][other]), case['self'][other]))
+        setattr(obj, pa, peer)
+        setattr(peer, pa, obj)
+    else:
+        for a, tt in cls['state'].items():
+            setattr(obj, a, to_py(py2lean.parse_type(tt), case['self'][a]))
+    pos, named = [], {}
+    for p, tt in spec['params'].items():
+        v = to_py(py2lean.parse_type(tt), case[py2lean.mangle(p)])
+        if v is None and cls.get('sentinels') and py2lean.parse_type(tt)[0] == 'Option':
+            continue        # `none` of a parameter whose Python default is an "omitted" marker: omit the argument
+        if len(pos) == len([q for q in spec['params'] if q in named]) == 0 and not named and \
+                len(pos) == list(spec['params']).index(p):
+            pos.append(v)
+        else:
+            named[p] = v
+    kw = dict(named)
     for kn, kt in spec.get('kwargs', {}).items():
-        kw = to_py(py2lean.parse_type(kt), case[kn])
+        kw.update(to_py(py2lean.parse_type(kt), case[kn]))
     try:
         with common.time_limit(5):
             r = fn(obj, *pos, **kw)
@@ -209,6 +229,8 @@ def call_method(spec, fn, case):
         res = ('exc', 'CaseTimeout')
     except Exception as e:  # noqa: BLE001
         res = ('exc', type(e).__name__)
+    if cls.get('dict_base'):
+        return res, {base: dict(dict.items(obj)), other: dict(dict.items(getattr(obj, pa)))}
     return res, {a: getattr(obj, a) for a in cls['state']}
 
 
@@ -355,7 +377,75 @@ def fam_tc(method):
     return fam
 
 
+OTO_KEYS = ['a', 'b', 'c', 'd', 'e', '']
+
+
+def _oto_states(rng, quick):
+    """states of a OneToOne: reachable ones (random histories on the real class) and arbitrary pairs of dicts
+    that are NOT inverse to each other (the KeyError paths)"""
+    import importlib
+    pycls = importlib.import_module('boltons.dictutils').OneToOne
+    for _ in range(15 if quick else 150):
+        o = pycls()
+        yield {'fwd': dict(o), 'inv': dict(o.inv)}
+        for _ in range(rng.randint(1, 12)):
+            r = rng.random()
+            side = o if rng.random() < 0.7 else o.inv
+            try:
+                if r < 0.6:
+                    side[rng.choice(OTO_KEYS)] = rng.choice(OTO_KEYS)
+                elif r < 0.75:
+                    del side[rng.choice(OTO_KEYS)]
+                elif r < 0.85:
+                    side.pop(rng.choice(OTO_KEYS), None)
+                else:
+                    side.update([(rng.choice(OTO_KEYS), rng.choice(OTO_KEYS)) for _ in range(rng.randint(0, 3))])
+            except KeyError:
+                pass
+            yield {'fwd': dict(o), 'inv': dict(o.inv)}
+    for _ in range(30 if quick else 300):
+        yield {'fwd': {k: rng.choice(OTO_KEYS) for k in rng.sample(OTO_KEYS, rng.randint(0, 4))},
+               'inv': {k: rng.choice(OTO_KEYS) for k in rng.sample(OTO_KEYS, rng.randint(0, 4))}}
+
+
+def fam_oto(method):
+    def fam(rng, quick):
+        for st in _oto_states(rng, quick):
+            for _ in range(2):
+                case = {'self': st}
+                key = rng.choice(list(st['fwd']) or OTO_KEYS) if rng.random() < 0.6 else rng.choice(OTO_KEYS)
+                if method in ('delitem',):
+                    case['key'] = key
+                elif method == 'setitem':
+                    case['key'] = key
+                    case['val'] = rng.choice(list(st['inv']) or OTO_KEYS) if rng.random() < 0.5 else rng.choice(OTO_KEYS)
+                elif method == 'pop':
+                    case['key'] = key
+                    case['default_'] = rng.choice([None, None, 'zz', 'a'])
+                elif method == 'setdefault':
+                    case['key'] = key
+                    case['default_'] = rng.choice(OTO_KEYS)
+                elif method == 'update_pairs':
+                    case['dict_or_iterable'] = [(rng.choice(OTO_KEYS), rng.choice(OTO_KEYS))
+                                                for _ in range(rng.randint(0, 4))]
+                    case['kw'] = {rng.choice(OTO_KEYS[:5]): rng.choice(OTO_KEYS) for _ in range(rng.randint(0, 2))}
+                elif method == 'update_dict':
+                    case['dict_or_iterable'] = {rng.choice(OTO_KEYS): rng.choice(OTO_KEYS)
+                                                for _ in range(rng.randint(0, 4))}
+                    case['kw'] = {rng.choice(OTO_KEYS[:5]): rng.choice(OTO_KEYS) for _ in range(rng.randint(0, 2))}
+                yield case
+    return fam
+
+
 FAMILIES = {
+    'OneToOne.delitem': fam_oto('delitem'),
+    'OneToOne.setitem': fam_oto('setitem'),
+    'OneToOne.clear': fam_oto('clear'),
+    'OneToOne.pop': fam_oto('pop'),
+    'OneToOne.popitem': fam_oto('popitem'),
+    'OneToOne.setdefault': fam_oto('setdefault'),
+    'OneToOne.update_pairs': fam_oto('update_pairs'),
+    'OneToOne.update_dict': fam_oto('update_dict'),
     'ThresholdCounter.add': fam_tc('add'),
     'ThresholdCounter.getitem': fam_tc('getitem'),
     'ThresholdCounter.len': fam_tc('len'),
